@@ -133,6 +133,11 @@ def run_order(case):
                     out.fail(("compare-raises", name, ka + kb, r.kind), f"{a!r} {name} {b!r}: {r!r}")
                     return out
                 res[name] = r
+            if ka == "l" and kb == "l" and a == b and (a.language or "") != (b.language or "") and (res.get("<") is True or res.get(">") is True):
+                # the order between different literals is not part of the property, but two spellings of one language tag are one
+                # term: it is not before or after itself (otherwise sorting equal terms depends on the order they came in)
+                out.fail(("equal-literals-ordered", "language-case"), f"{a!r} == {b!r} but < is {res.get('<')} and > is {res.get('>')}")
+                return out
             if ka != kb:
                 lt = KIND_RANK[ka] < KIND_RANK[kb]
                 exp = {"<": lt, ">": not lt, "<=": lt, ">=": not lt}
